@@ -13,6 +13,9 @@ pub mod c04;
 pub mod c05;
 pub mod c06;
 pub mod c09;
+pub mod c10;
+pub mod c11;
+pub mod c12;
 pub mod c19;
 
 pub type RunFn = fn(&RunCfg) -> (Outcome, EvidenceExtra);
@@ -36,6 +39,9 @@ pub fn registry() -> Vec<(&'static str, RunFn, ReplayFn)> {
         ("C05", c05::run as RunFn, replay_fn!(c05)),
         ("C06", c06::run as RunFn, replay_fn!(c06)),
         ("C09", c09::run as RunFn, replay_fn!(c09)),
+        ("C10", c10::run as RunFn, replay_fn!(c10)),
+        ("C11", c11::run as RunFn, replay_fn!(c11)),
+        ("C12", c12::run as RunFn, replay_fn!(c12)),
         ("C19", c19::run as RunFn, replay_fn!(c19)),
     ]
 }
